@@ -695,6 +695,10 @@ def apply_image_normalization(
         return observation
 
     if isinstance(observation, torch.Tensor):
+        if not observation.is_floating_point():
+            # integer arithmetic would wrap: the range of an integer space need not fit its own
+            # dtype (int8 [-128, 127])
+            observation = observation.float()
         low = torch.tensor(
             observation_space.low, device=observation.device, dtype=observation.dtype
         )
@@ -704,6 +708,9 @@ def apply_image_normalization(
     else:
         low = observation_space.low
         high = observation_space.high
+        if np.issubdtype(low.dtype, np.integer):
+            # see above: (observation - low) and (high - low) are evaluated in floating point
+            low, high = low.astype(np.float64), high.astype(np.float64)
 
     return (observation - low) / (high - low)
 
